@@ -30,6 +30,18 @@ import (
 	"gopkg.in/yaml.v3"
 )
 
+// a plugin namespace registered the way real plugins do it; LoadYAML then stores a typed *c13PluginConfig
+const c13PluginNS = "verif.c13"
+
+type c13PluginConfig struct {
+	Enabled bool   `json:"enabled,omitempty" yaml:"enabled,omitempty"`
+	Message string `json:"message,omitempty" yaml:"message,omitempty"`
+	Note    string `json:"note,omitempty" yaml:"note,omitempty"`
+	Limit   int    `json:"limit,omitempty" yaml:"limit,omitempty"`
+}
+
+func init() { RegisterPluginConfig(c13PluginNS, c13PluginConfig{}) }
+
 type c13Env struct {
 	mu        sync.Mutex
 	trace     []string
@@ -134,8 +146,15 @@ func c13Walk(prefix string, v reflect.Value, out map[string]bool) {
 		for _, k := range v.MapKeys() {
 			e := v.MapIndex(k)
 			p := prefix + "." + fmt.Sprint(k.Interface())
-			if e.Kind() == reflect.Struct {
-				out[p+"/"] = true
+			u := e
+			for u.Kind() == reflect.Interface || u.Kind() == reflect.Ptr {
+				if u.IsNil() {
+					break
+				}
+				u = u.Elem()
+			}
+			if u.Kind() == reflect.Struct || u.Kind() == reflect.Map {
+				out[p+"/"] = true // a map entry that is itself an object exists even when it is empty
 			}
 			c13Walk(p, e, out)
 		}
@@ -161,7 +180,11 @@ func c13Walk(prefix string, v reflect.Value, out map[string]bool) {
 		}
 	case reflect.Float32, reflect.Float64:
 		if v.Float() != 0 {
-			out[prefix+"=f"+strconv.FormatFloat(v.Float(), 'g', -1, 64)] = true
+			if v.Float() == float64(int64(v.Float())) {
+				out[prefix+"=i"+strconv.FormatInt(int64(v.Float()), 10)] = true // JSON round trip of an int
+			} else {
+				out[prefix+"=f"+strconv.FormatFloat(v.Float(), 'g', -1, 64)] = true
+			}
 		}
 	}
 }
@@ -174,9 +197,11 @@ func c13Project(cfg *config.Config) string {
 	c13Walk("", reflect.ValueOf(cfg).Elem(), m)
 	var l []string
 	for k := range m {
-		if !strings.HasPrefix(k, "subscriber-groups") {
-			l = append(l, k)
+		if strings.HasPrefix(k, "subscriber-groups") || k == "plugins/" {
+			continue
 		}
+		// plugin namespaces are addressed without the "plugins." prefix
+		l = append(l, strings.TrimPrefix(k, "plugins."))
 	}
 	sort.Strings(l)
 	if len(l) == 0 {
@@ -418,6 +443,32 @@ func c13RunCase(line string, root string, idx int, templates string) (res string
 		p += 3
 		cd.runningConfig = c13GuardConfig(ifn, uint16(mru))
 		cd.startupConfig = cd.deepCopyConfig(cd.runningConfig)
+		cd.refreshMixedAccessSet()
+		cd.refreshSGSnapshot()
+	}
+	// optional: bring the manager up from a startup file carrying a registered plugin namespace
+	//   "plugin typed|prod <message> <limit>"   typed: running is what LoadYAML returned (typed pointer in
+	//   cfg.Plugins); prod: running is cd.startupConfig, as ApplyLoadedConfig does it
+	if p < len(f) && f[p] == "plugin" {
+		mode := f[p+1]
+		msg, _ := c13ParseVal(f[p+2])
+		lim, _ := strconv.Atoi(f[p+3])
+		p += 4
+		y := fmt.Sprintf("plugins:\n  %s:\n    message: %q\n    limit: %d\n", c13PluginNS, msg.(string), lim)
+		boot := filepath.Join(dir, "boot.yaml")
+		os.WriteFile(boot, []byte(y), 0644)
+		cfg, err := cd.LoadStartupConfig(boot)
+		if err != nil {
+			return "harness-error boot " + strings.ReplaceAll(err.Error(), " ", "_")
+		}
+		if _, ok := cfg.Plugins[c13PluginNS].(*c13PluginConfig); !ok {
+			return "harness-error plugin-not-typed"
+		}
+		if mode == "typed" {
+			cd.runningConfig = cfg
+		} else {
+			cd.runningConfig = cd.startupConfig
+		}
 		cd.refreshMixedAccessSet()
 		cd.refreshSGSnapshot()
 	}
@@ -704,7 +755,18 @@ func TestVerifC13(t *testing.T) {
 		line := sc.Text()
 		idx++
 		done := make(chan string, 1)
-		go func() { done <- c13RunCase(line, root, idx, templates) }()
+		go func(idx int) {
+			if strings.HasPrefix(line, "conc ") {
+				// a concurrent scenario is run several times with different jitter; every run is checked
+				var rs []string
+				for rep := 0; rep < 8; rep++ {
+					rs = append(rs, c13RunCase(line, root, idx*100+rep, templates))
+				}
+				done <- strings.Join(rs, " || ")
+				return
+			}
+			done <- c13RunCase(line, root, idx, templates)
+		}(idx)
 		select {
 		case r := <-done:
 			fmt.Fprintln(w, r)
